@@ -12,7 +12,7 @@ queries: `reach cfg l ops`.  No bound on the length of the history, the sets or 
 The model is tied to the real `chain.Manager` by `harness/c14` (results of every call, the pool
 after every step, every lookup).
 -/
-import Verif.Lemmas.Pool
+import Verif.Lemmas.PoolHistory
 
 namespace Verif.C14
 open Verif.Pool
@@ -137,6 +137,22 @@ theorem addSet_spec (cfg : Cfg) (v2 : Bool) (q : Pool) (set : List Txn) (hms : q
         have h1 := hall t ht
         rw [this] at h1
         exact hn ((hq.isSome_iff _).1 h1)
+
+/-- a set that is not valid against the tip on its own is refused and nothing changes — whatever
+the pool knows about the ids of its members -/
+theorem invalid_set_rejected (cfg : Cfg) (v2 : Bool) (q : Pool) (set : List Txn)
+    (h : seqValid cfg q.led v2 MidState.empty set = false) : addSet cfg v2 q set = (q, .err) := by
+  unfold addSet
+  rw [checkTxnSet_eq, h]
+  simp
+
+/-- in particular a set containing a transaction that consensus rejects on its own account (`ok =
+false`: a broken signature) — also when that transaction is a same-id copy of a pooled one: an id
+commits neither to signatures nor to proofs, so being pooled says nothing about the copy -/
+theorem broken_member_rejected (cfg : Cfg) (l : Ledger) (ops : List Op) (v2 : Bool) (set : List Txn) (t : Txn)
+    (ht : t ∈ set) (hok : t.ok = false) :
+    addSet cfg v2 (seen cfg (reach cfg l ops)) set = (seen cfg (reach cfg l ops), .err) :=
+  invalid_set_rejected cfg v2 _ set (seqValid_false_of_not_ok cfg _ v2 set _ t ht hok)
 
 /-- **v1 submission**, for every reachable pool and every set -/
 theorem add_v1_spec (cfg : Cfg) (l : Ledger) (ops : List Op) (set : List Txn) :
